@@ -50,22 +50,22 @@ func (sm StringMatcher) Match(input string) bool {
 	switch {
 	case sm.exactMatch != nil:
 		if sm.ignoreCase {
-			input = strings.ToLower(input)
+			input = asciiLower(input)
 		}
 		return input == *sm.exactMatch
 	case sm.prefixMatch != nil:
 		if sm.ignoreCase {
-			input = strings.ToLower(input)
+			input = asciiLower(input)
 		}
 		return strings.HasPrefix(input, *sm.prefixMatch)
 	case sm.suffixMatch != nil:
 		if sm.ignoreCase {
-			input = strings.ToLower(input)
+			input = asciiLower(input)
 		}
 		return strings.HasSuffix(input, *sm.suffixMatch)
 	case sm.containsMatch != nil:
 		if sm.ignoreCase {
-			input = strings.ToLower(input)
+			input = asciiLower(input)
 		}
 		return strings.Contains(input, *sm.containsMatch)
 	case sm.regexMatch != nil:
@@ -83,7 +83,7 @@ func newStrPtr(input *string, ignoreCase bool) *string {
 
 	s := new(string)
 	if ignoreCase {
-		*s = strings.ToLower(*input)
+		*s = asciiLower(*input)
 	} else {
 		*s = *input
 	}
@@ -226,4 +226,15 @@ func CompileSafeRegex(pattern string) (*regexp.Regexp, error) {
 		return nil, err
 	}
 	return regexp.Compile(fmt.Sprintf("^(?:%s)$", pattern))
+}
+
+// asciiLower folds ASCII upper-case letters only.
+func asciiLower(s string) string {
+	b := []byte(s)
+	for i, c := range b {
+		if c >= 'A' && c <= 'Z' {
+			b[i] = c + 32
+		}
+	}
+	return string(b)
 }
